@@ -208,17 +208,31 @@ pub fn explore<Sp: Spec>(spec: &Sp, lim: &Limits) -> Stats {
     }
     if frontier.is_empty() {
         st.closed = true;
+        // fixpoint: the whole (finite) space was explored; every explored transition is a
+        // validated step of the implementation and there is no "deepest" history
+        if st.maximal == 0 {
+            st.maximal = st.transitions;
+        }
     } else if st.capped.is_none() {
         // states at the depth bound are maximal histories of the bounded space
         st.maximal += frontier.len() as u64;
     }
     // a few sample histories: first, middle and last state of the deepest level
-    if let Some(last) = links.last() {
-        let l = links.len() - 1;
-        if !last.is_empty() && l > 0 {
-            for &i in &[0usize, last.len() / 2, last.len() - 1] {
-                st.samples.push(serde_json::json!({"spec": spec.name(), "history": path_of(&links, l, i as u32)}));
+    // a few sample histories: from the deepest non-empty level (middle and last state first:
+    // the first state of a level is usually the least interesting, all-smallest-letter one)
+    let inits = spec.init();
+    if links.len() <= 2 && links.get(1).map(|l| l.is_empty()).unwrap_or(true) && !inits.is_empty() {
+        // the space closed on its initial states: show transitions out of some of them
+        for &i in &[inits.len() / 2, inits.len() - 1, 0] {
+            let ops = spec.ops(&inits[i]);
+            if !ops.is_empty() {
+                st.samples.push(serde_json::json!({"spec": spec.name(), "history": [{"init": i, "state": spec.key(&inits[i])}, spec.show_op(&ops[ops.len() / 2])], "note": "leads to an already known state"}));
             }
+        }
+    } else if let Some(l) = (0..links.len()).rev().find(|&l| !links[l].is_empty()) {
+        let last = &links[l];
+        for &i in &[last.len() / 2, last.len() - 1, last.len() / 3] {
+            st.samples.push(serde_json::json!({"spec": spec.name(), "history": path_of(&links, l, i as u32)}));
         }
     }
     st.outcomes = outcomes.len() as u64;
